@@ -37,6 +37,22 @@ CHECKS["C11"] = dict(
     technique="Lean 4 proof over a model translated from the intrinsics code (clang AST) + CPU correspondence",
     design="§4 C11", note=NOTE_BASE)
 
+CHECKS["C13"] = dict(
+    text=("Machine-checked theorems (Props/C13.lean) about Gen/Avx2Mat.lean (regenerated from the intrinsics code): for every "
+          "state held in three 4-lane registers and every coefficient region, spmv/dot/mmult_4x12/mmult (aligned and unaligned) "
+          "return the inner products / matrix-vector products in ZMod p in the documented layout, including when intermediate "
+          "products and sums are non-canonical; the _8 variants under 'all coefficients < 2^8'. Proof by composition of the C02 "
+          "lane theorems with the permute/unpack transpose lemma. Tie: regeneration + CPU correspondence."),
+    technique="Lean 4 proof (ZMod p, ring) over a model translated from the intrinsics code + CPU correspondence",
+    design="§4 C13", note=NOTE_BASE)
+CHECKS["C14"] = dict(
+    text=("Machine-checked theorems (Props/C14.lean) about Gen/Avx512Mat.lean: the same statements per interleaved state "
+          "(lanes 0-3 / 4-7), incl. the permutex2var/unpack transpose and the 8-bit variants. On the pinned tree the obligation "
+          "did not close (defect D4, found with a concrete replay by this check and repaired by a fix: commit); the lane-level "
+          "witness is kept as a theorem. Tie: regeneration + execution on AVX512F hardware."),
+    technique="Lean 4 proof (ZMod p, ring) over a model translated from the intrinsics code + CPU correspondence",
+    design="§4 C14", note=NOTE_BASE)
+
 NOT_YET = {
 }
 
